@@ -103,6 +103,27 @@ Section Static.
   Definition no_move : Prop :=
     forall m mi st, modinfo_of p m = Some mi -> In st (m_stmts mi) -> stmt_no_move mi st.
 
+  (* modules are added parents first (SystemBuilder.addModuleString needs the parent package to exist) *)
+  Definition parents_first : Prop :=
+    forall m mi q, modinfo_of p m = Some mi -> m_parent mi = Some q -> q < m.
+
+  (* the absolute name of the module that `from <level dots><modname> import ...` written in module m refers to *)
+  Fixpoint up_static (k : nat) (o : option oid) : option oid :=
+    match k with
+    | O => o
+    | S k' => match o with None => None | Some y => up_static k' (sparent y) end
+    end.
+  Definition static_modname (m level : N) (modname : path) : option path :=
+    if N.eqb level 0 then Some modname
+    else
+      let lvl := match modinfo_of p m with
+                 | Some mi => if m_pkg mi then level - 1 else level
+                 | None => level end in
+      match up_static (N.to_nat lvl) (Some (m, 0, 0)) with
+      | None => None
+      | Some q => Some (skey q ++ modname)
+      end.
+
   (* a schedule: the order of System.unprocessed_modules, a permutation of the module indices *)
   Definition module_ids : list N := map N.of_nat (seq 0 (length p)).
 End Static.
